@@ -446,6 +446,39 @@ Fixpoint rd_spec (k : nat) (p : package) (tn : name) (names : list name) : optio
       end
   end.
 
+(* "answered by delegation": the embedded fields the method delegates to are asked in field order,
+   the first one that answers wins, and the first doc line of the embedding field (if any) is put
+   in front of the first line of that answer *)
+Fixpoint deleg_fields (p : package) (call : field -> outcome) (fs : list field) : outcome :=
+  match fs with
+  | [] => Ok None
+  | f :: r =>
+      if delegating p f then
+        match call f with
+        | Ok (Some d) => Ok (Some (patch (first_line (doc_of (f_name f) (f_doc f))) d))
+        | Ok None => deleg_fields p call r
+        | Panic => Panic
+        | OutOfFuel => OutOfFuel
+        end
+      else deleg_fields p call r
+  end.
+
+(* the value of the embedded field n of a struct value (absent = nil pointer) *)
+Definition kid (kids : list (name * rv)) (n : name) : rv :=
+  match assoc n kids with Some sv => sv | None => RNil end.
+
+(* a struct type whose (name-stripped) doc contains a [[path]] reference: RuntimeDoc() then returns the
+   content of that file in place of the line (a feature the property's statement does not cover) *)
+Definition has_embed_ref (p : package) (tn : name) : bool :=
+  match lookup_ty p tn with
+  | Some t => match t_kind t with
+              | TStruct _ => existsb (fun l => match re_embed l with Some _ => true | None => false end)
+                                     (doc_of (t_name t) (t_doc t))
+              | _ => false
+              end
+  | None => false
+  end.
+
 (* ------------------------------------------------------------------------------------------ *)
 (* the known-finding class: a query whose delegation reaches, through a nil embedded pointer,  *)
 (* a method that has delegations of its own (the generated code dereferences the nil receiver) *)
